@@ -120,6 +120,16 @@ def run(ctx, report):
             pp = sg_.lstrip('\r\n ').split(src_d[1])
             if pp[0] == 'GS' and (len(pp) < 7 or pp[6] == ''):
                 sit = ':source-gs06-empty'
+        # a LATER ISA of the source that is not the fixed-width header (the reader checks the width of the first one only): its
+        # fields are echoed into the acknowledgement's own ISA
+        first_isa = True
+        for sg_ in text.split(src_d[0]):
+            t_ = sg_.lstrip('\r\n ')
+            if t_.startswith('ISA' + src_d[1]):
+                if not first_isa and len(t_) != 105:
+                    sit += ':later-isa-not-fixed-width'
+                    break
+                first_isa = False
         # an interchange acknowledgement segment (TA1) stands between the last GE and the IEA, outside every group
         ids_ = [x.strip().split('*')[0] for x in ack.split('~') if x.strip()]
         for k_, sid_ in enumerate(ids_):
@@ -175,6 +185,20 @@ def run(ctx, report):
                 p_ = p_[:2] + ['']
             out.append(d[1].join(p_))
         cases.append(('envmut', 'empty group control number map=%s' % name, docgen.encode(out, d, '')))
+    # a set whose ST carries no control number at all ('ST*837'): still acknowledged, the acknowledgement still complete
+    for name in ['837.4010.X098.A1.xml', '834.5010.X220.A1.xml', '835.4010.X091.A1.xml', '270.4010.X092.A1.xml']:
+        segs, d = walk_gen.map_document(rng, name, ('~', '*', ':'), n_gs=1, n_st=rng.choice([1, 2]), p_seg=0.1, p_loop=0.15, max_segs=20)
+        sts = [i for i, x in enumerate(segs) if x.startswith('ST' + d[1])]
+        i = rng.choice(sts)
+        segs[i] = d[1].join(segs[i].split(d[1])[:rng.choice([1, 2, 2])])          # 'ST' or 'ST*837'
+        cases.append(('envmut', 'ST without control number map=%s' % name, docgen.encode(segs, d, '')))
+    # a second interchange whose ISA is not fixed-width (short / empty fields)
+    for name in ['837.4010.X098.A1.xml', '834.5010.X220.A1.xml']:
+        segs, d = walk_gen.map_document(rng, name, ('~', '*', ':'), n_isa=2, n_gs=1, n_st=1, p_seg=0.1, p_loop=0.15, max_segs=15)
+        isas = [i for i, x in enumerate(segs) if x.startswith('ISA' + d[1])]
+        if len(isas) == 2:
+            segs[isas[1]] = d[1].join(f.strip() for f in segs[isas[1]].split(d[1]))
+            cases.append(('envmut', 'second ISA not fixed-width map=%s' % name, docgen.encode(segs, d, '')))
     # interchanges that REQUEST an interchange acknowledgement (ISA14 = 1): the acknowledgement then carries a TA1, which belongs
     # between the last GE and the IEA
     extra = []
